@@ -43,7 +43,7 @@ ASSUMPTIONS = [
     "context switches happen only at harness-visible yield points; a snapshot operation without callbacks is atomic for the scheduler",
     "real-lock part: a blocked reader is detected by content (it must return a committed state), the only timeout (30 s on operations that take microseconds) reports a deadlock",
 ]
-EXHAUSTIVE_NOTE = {"quick": "all schedules of a pair section x each of 8 snapshot operations and of a rebuild section x 4 operations (evidence classes say whether a limit was hit)", "thorough": "all schedules of {pair, rebuild, move} section x each of 8 snapshot operations, plus 2-section writers"}
+EXHAUSTIVE_NOTE = {"quick": "all schedules of a pair section x each of 8 snapshot operations, of a rebuild section x {to_dict_list, save} and of a typed pair section x save (evidence classes say whether a limit was hit)", "thorough": "all schedules of {pair, rebuild, move} section x each of 8 snapshot operations, plus 2-section writers"}
 
 READER_OPS = ["save", "copy", "copy_pred", "filtered", "copy_to", "to_dict_list", "to_dotfile", "with+iterate"]
 SECTIONS = ["pair", "rebuild", "move"]
@@ -153,7 +153,8 @@ DOT_EDGE = re.compile(r'^  (\S+) -> (\S+)(?: \[label="([^"]*)"\])?')
 def do_reader_op(tree, op):
     """-> decoded shape"""
     if op == "save":
-        buf = YieldIO()
+        buf = io.StringIO()  # json.dump() writes after the lock is released: no yield points needed there
+        yield_point("before-save")
         tree.save(buf)
         doc = json.loads(buf.getvalue())
         nodes = [None]
@@ -372,11 +373,11 @@ def enum_cases(tier):
     kinds = ["pair", "rebuild"] if tier == "quick" else SECTIONS
     for kind in kinds:
         for op in READER_OPS:
-            if tier == "quick" and kind == "rebuild" and op not in ("to_dict_list", "copy_pred", "to_dotfile", "save"):
+            if tier == "quick" and kind == "rebuild" and op not in ("to_dict_list", "save"):
                 continue
             yield {"program": {"writers": [[{"kind": kind}]], "readers": [[op]]}, "limit": 4000 if tier == "quick" else 100000}
     # typed trees: the writer introduces a kind that no committed node had before
-    for op in (["save", "copy", "to_dotfile"] if tier == "quick" else READER_OPS):
+    for op in (["save"] if tier == "quick" else READER_OPS):
         yield {"program": {"typed": True, "writers": [[{"kind": "pair"}]], "readers": [[op]]}, "limit": 4000 if tier == "quick" else 100000}
     if tier == "thorough":
         for op in READER_OPS:
@@ -404,6 +405,6 @@ def hyp_cases(draw, tier):
 
 PARTS = [
     Part("all-schedules", run_exhaustive, enum=enum_cases, watchdog=3600),
-    Part("random-programs", run_random, strategy=hyp_cases, n={"quick": 150, "thorough": 20000}),
+    Part("random-programs", run_random, strategy=hyp_cases, n={"quick": 100, "thorough": 20000}),
     Part("real-lock", run_real, enum=real_cases),
 ]
